@@ -2,7 +2,7 @@ import sys, time, cProfile, pstats
 sys.path.insert(0,'.')
 import engine, harnesses
 from interp import Machine
-prog,res=engine.load('/var/tmp/verif-scratch/mir/crate.mir','/repo')
+prog,res=engine.load(__import__('build').mir_dump()[0],'/repo')
 h=harnesses.get(sys.argv[1])
 shape=eval(sys.argv[2])
 m=Machine(prog,res)
